@@ -267,10 +267,10 @@ impl Monitor for C04 {
         "C04"
     }
     fn rule_text(&self) -> String {
-        "generated programs (plain Lua for the default rules; Luau with types, assert/profiling calls and the injected global for the line-neutral pipelines) get unique literal markers: `mark(\"M<k>_\")` statements between statements and `mark(\"M<k>_\", e)` wrappers around sub-expressions; the token list is laid out with line breaks (LF/CRLF/mixed), blank lines and comments in random token gaps so expressions, calls, tables and declarations span several lines. Configurations: (a) the default list, each default rule alone, random ordered subsets of the default rules; (b) remove_spaces followed by a random sequence of the 16 line-neutral rules; optionally append_text_comment at the start. Generator retain_lines. Oracle: every marker present in the output is on its input line (plus the uniform shift caused by a comment appended at the start). Non-trivial = at least 3 markers survive and the output differs from the input; distinct = hash(source, rules).".into()
+        "generated programs (plain Lua for the default rules; Luau with types, assert/profiling calls and the injected global for the line-neutral pipelines) get unique literal markers: `mark(\"M<k>_\")` statements between statements and `mark(\"M<k>_\", e)` wrappers around sub-expressions; the token list is laid out with line breaks (LF/CRLF/mixed), blank lines and comments in random token gaps so expressions, calls, tables and declarations span several lines. Configurations: (a) the default list, each default rule alone, random ordered subsets of the default rules; (b) remove_spaces followed by a random sequence of the 16 line-neutral rules; optionally append_text_comment at the start. Some string literals are re-spelled over several lines (long brackets, backslash-newline, \\z) and statements may be preceded by documentation blocks of 3-5 line comments. Generator retain_lines. Oracle: every marker present in the output is on its input line (plus the uniform shift caused by a comment appended at the start). Bundle flow (one case in six): an entry and 1-3 modules with disjoint marker ranges are bundled (require_mode path, retain_lines, remove_spaces / remove_comments / line-neutral rules): within each source file all surviving markers must move by the same number of lines. Non-trivial = at least 3 markers survive and the output differs from the input; distinct = hash(source, rules).".into()
     }
     fn assumptions(&self) -> Vec<String> {
-        vec!["markers that disappear (dead code removed) are not judged".into(), "the line of a token is counted by the independent lexer (LF-terminated lines)".into(), "group_local_assignment and bundling are outside the claim and not used".into()]
+        vec!["markers that disappear (dead code removed) are not judged".into(), "the line of a token is counted by the independent lexer (LF-terminated lines)".into(), "group_local_assignment is outside the claim and not used".into(), "bundle flow: the shift of each source file is not predicted, only required to be the same for all of its surviving markers".into()]
     }
     fn plan(&self, tier: Tier) -> Plan {
         Plan { deterministic: 0, max_cases: u64::MAX, budget_s: if tier == Tier::Quick { 40.0 } else { 600.0 } }
